@@ -156,8 +156,20 @@ struct Machine {
         int64_t x = (int64_t)(ch.below(m + 1));
         p[q] = ch.below(2) ? -x : x;
       }
+    // NTT120 accepts every int64: one "large" input in two carries values at the very ends of the range (such a slot can only be
+    // copied and transformed: the coefficient-space arithmetic documents |x| <= 2^62)
+    bool boundary = false;
+    if (mt == NTT120 && !small && ch.below(2)) {
+      boundary = true;
+      for (auto& p : Z[zi].v)
+        for (uint64_t q = 0; q < n; q += 1 + ch.below(3)) {
+          static const int64_t ends[6] = {INT64_MIN, INT64_MIN + 1, INT64_MAX, INT64_MAX - 1, -((int64_t)1 << 62) - 12345, INT64_MIN + ((int64_t)1 << 54)};
+          uint64_t w = ch.below(8);
+          p[q] = w < 6 ? (i128)ends[w] : (i128)(INT64_MIN + (int64_t)ch.below(1ull << 56));
+        }
+    }
     store_z(zi);
-    trace.push_back("Z" + u(zi) + " = input(size=" + u(size) + ", bits=" + u(bits) + (sparse == 2 ? ", sparse" : "") + ")");
+    trace.push_back("Z" + u(zi) + " = input(size=" + u(size) + ", bits=" + u(bits) + (sparse == 2 ? ", sparse" : "") + (boundary ? ", int64 boundary values" : "") + ")");
   }
 
   // element-wise coefficient ops; which: 0 copy 1 negate 2 rotate 3 automorphism 4 add 5 sub
@@ -166,6 +178,7 @@ struct Machine {
     const ZSlot A = Z[a];
     const ZSlot Bv = bin ? Z[b] : Z[a];
     if (bin && linf(A.v) + linf(Bv.v) >= LINF_MAX) return false;
+    if (which != 0 && linf(A.v) > 4611686018427387904.0L) return false;  // negate / rotate / automorphism negate coefficients: |x| <= 2^62
     uint64_t rs = ch.below(5);
     int64_t p = 0;
     if (which == 2 || which == 3) p = ring::make_p((int)ch.below(4), k, (int64_t)ch.below(18), ch.below(1ull << 62), (int)ch.below(2), which == 3);
